@@ -84,9 +84,17 @@ P_Contain ==
             {C.delivered[i] : i \in {j \in DOMAIN C.delivered : Count(C.expected, C.delivered[j]) # 1}}, C.inj>>)
     /\ Ck("C13", "CallbackOrderKept", C.delivered = C.expected, <<FirstDiff(C.delivered, C.expected), C.inj>>)
 
+\* a file carrying several markets: whichever book is being processed, the clock shows its publish time
+P_Clock ==
+    /\ Ck("C14", "ClockEqualsPublishTime", \A i \in DOMAIN C.clocks : C.clocks[i][1] = C.clocks[i][2],
+          {C.clocks[i] : i \in {j \in DOMAIN C.clocks : C.clocks[j][1] # C.clocks[j][2]}})
+    /\ Ck("C14", "RunNotAborted", C.error = "", C.error)
+    /\ Ck("C14", "EveryMarketOfTheFileDelivered", C.markets_seen = C.markets, <<C.markets_seen, C.markets>>)
+
 CaseOK ==
     /\ (C.kind = "merge" /\ "C14" \in Props => P_Merge)
     /\ (C.kind = "det" /\ "C14" \in Props => P_Det)
+    /\ (C.kind = "clock" /\ "C14" \in Props => P_Clock)
     /\ (C.kind = "iso" /\ "C13" \in Props => P_Iso)
     /\ (C.kind = "inject" /\ "C13" \in Props => P_Inject)
     /\ (C.kind = "contain" /\ "C13" \in Props => P_Contain)
